@@ -150,12 +150,115 @@ package hashgraph
 //@   ensures[ok]   ret0 == nil && (old(G_miss(h.Store)) ==> G_miss(h.Store))
 //@   ensures[maps] event.lastAncestors != nil && event.firstDescendants != nil && __fresh(event.lastAncestors) && __fresh(event.firstDescendants)
 
-//@ func (h *Hashgraph) witness(x string) (bool, error)
-//@   trusted memoising wrapper around _witness (covered under C03); here only its frame is used
-//@   modifies anyghost common.m, G_miss(h.Store)
+// ------------------------------------------------------------------------------------------------
+// Consensus predicates (C01, C03). Every predicate (_ancestor, _selfAncestor, _stronglySee, _round, _witness,
+// _lamportTimestamp) is proved to compute one fixed rule of the event DAG: the events' coordinates and parents,
+// the parents' values, the witness set and the validator set of the parent round. Nothing else (topological
+// index, wall clock, map iteration order, cache content) can influence the result. The memoising wrappers are
+// proved to be pure memoisation of one value function per predicate.
+//
+// AncV ... LTV are those value functions: rigid functions of the hashgraph object and event hashes. A wrapper's
+// `assume[def]` says that the rule evaluated on the present state yields that value, i.e. that the rule's value
+// for stored events never changes afterwards (protocol-level: coordinates of stored events only grow in ways
+// that do not flip the comparisons; a round's validator set is fixed once the round is reached). That stability
+// is NOT machine-checked; it is listed with the assumptions in the evidence.
+//@ ghost func AncV(h *Hashgraph, x string, y string) bool
+//@ ghost func SelfAncV(h *Hashgraph, x string, y string) bool
+//@ ghost func SSV(h *Hashgraph, x string, y string, pshex string) bool
+//@ ghost func RoundV(h *Hashgraph, x string) int
+//@ ghost func WitV(h *Hashgraph, x string) bool
+//@ ghost func LTV(h *Hashgraph, x string) int
+
+// AncRule: y's creator has an entry in x's last-ancestor coordinates at or above y's index.
+//@ ghost func AncRule(ex *Event, ey *Event) bool { return __in(CreatorOf(ey), ex.lastAncestors) && ex.lastAncestors[CreatorOf(ey)].Index >= ey.Body.Index }
+//@ ghost func SelfAncRule(ex *Event, ey *Event) bool { return CreatorOf(ex) == CreatorOf(ey) && ex.Body.Index >= ey.Body.Index }
+
+//@ func (h *Hashgraph) _ancestor(x, y string) (bool, error)
+//@   requires h != nil
+//@   modifies G_miss(h.Store)
+//@   ensures[refl] x == y ==> ret0 && ret1 == nil
+//@   ensures[rule] ret1 == nil && x != y ==> __in(x, G_events(h.Store)) && __in(y, G_events(h.Store)) && ret0 == AncRule(G_events(h.Store)[x], G_events(h.Store)[y])
+//@   ensures[err]  ret1 != nil ==> !ret0
+
+//@ func (h *Hashgraph) _selfAncestor(x, y string) (bool, error)
+//@   requires h != nil
+//@   modifies G_miss(h.Store)
+//@   ensures[refl] x == y ==> ret0 && ret1 == nil
+//@   ensures[rule] ret1 == nil && x != y ==> __in(x, G_events(h.Store)) && __in(y, G_events(h.Store)) && ret0 == SelfAncRule(G_events(h.Store)[x], G_events(h.Store)[y])
+//@   ensures[err]  ret1 != nil ==> !ret0
+
+// Cache invariants: every entry of a memo cache is the boxed value of the predicate's value function at the key.
+// memoSep: the six memo caches are six different objects (NewHashgraph allocates each one).
+//@ ghost func (h *Hashgraph) memoSep() bool { return h.ancestorCache != nil && h.selfAncestorCache != nil && h.stronglySeeCache != nil && h.roundCache != nil && h.timestampCache != nil && h.witnessCache != nil && h.ancestorCache != h.selfAncestorCache && h.ancestorCache != h.stronglySeeCache && h.ancestorCache != h.roundCache && h.ancestorCache != h.timestampCache && h.ancestorCache != h.witnessCache && h.selfAncestorCache != h.stronglySeeCache && h.selfAncestorCache != h.roundCache && h.selfAncestorCache != h.timestampCache && h.selfAncestorCache != h.witnessCache && h.stronglySeeCache != h.roundCache && h.stronglySeeCache != h.timestampCache && h.stronglySeeCache != h.witnessCache && h.roundCache != h.timestampCache && h.roundCache != h.witnessCache && h.timestampCache != h.witnessCache }
+//@ ghost func (h *Hashgraph) ancCacheOK() bool { return h.ancestorCache != nil && (forall x string, y string :: __in(interface{}(key{x, y}), common.G_m(h.ancestorCache)) ==> common.G_m(h.ancestorCache)[interface{}(key{x, y})] == interface{}(AncV(h, x, y))) }
+//@ ghost func (h *Hashgraph) selfAncCacheOK() bool { return h.selfAncestorCache != nil && (forall x string, y string :: __in(interface{}(key{x, y}), common.G_m(h.selfAncestorCache)) ==> common.G_m(h.selfAncestorCache)[interface{}(key{x, y})] == interface{}(SelfAncV(h, x, y))) }
+
+//@ func (h *Hashgraph) ancestor(x, y string) (bool, error)
+//@   requires h != nil && h.ancCacheOK()
+//@   assume[def] (x == y ==> AncV(h, x, y)) && (x != y && __in(x, G_events(h.Store)) && __in(y, G_events(h.Store)) ==> AncV(h, x, y) == AncRule(G_events(h.Store)[x], G_events(h.Store)[y]))
+//@   modifies common.G_m(h.ancestorCache), G_miss(h.Store)
+//@   ensures[value] ret1 == nil ==> ret0 == AncV(h, x, y)
+//@   ensures[memo]  h.ancCacheOK()
+
+//@ func (h *Hashgraph) selfAncestor(x, y string) (bool, error)
+//@   requires h != nil && h.selfAncCacheOK()
+//@   assume[def] (x == y ==> SelfAncV(h, x, y)) && (x != y && __in(x, G_events(h.Store)) && __in(y, G_events(h.Store)) ==> SelfAncV(h, x, y) == SelfAncRule(G_events(h.Store)[x], G_events(h.Store)[y]))
+//@   modifies common.G_m(h.selfAncestorCache), G_miss(h.Store)
+//@   ensures[value] ret1 == nil ==> ret0 == SelfAncV(h, x, y)
+//@   ensures[memo]  h.selfAncCacheOK()
+
+// SSCond: validator p's chain links x down to y (x's last ancestor by p is at or above y's first descendant by p).
+// SSRule: strictly more than two thirds of the validators of ps link x to y.
+//@ ghost func SSCond(ex *Event, ey *Event, p string) bool { return __in(p, ex.lastAncestors) && __in(p, ey.firstDescendants) && ex.lastAncestors[p].Index >= ey.firstDescendants[p].Index }
+//@ ghost func SSRule(ex *Event, ey *Event, ps *peers.PeerSet) bool { return 3*__count(ps.ByPubKey, func(p string) bool { return SSCond(ex, ey, p) }) > 2*len(ps.ByPubKey) }
+
+//@ func (h *Hashgraph) _stronglySee(x, y string, peers *peers.PeerSet) (bool, error)
+//@   requires h != nil && peers != nil && peers.WF()
+//@   modifies G_miss(h.Store)
+//@   ensures[rule] ret1 == nil ==> __in(x, G_events(h.Store)) && __in(y, G_events(h.Store)) && ret0 == SSRule(G_events(h.Store)[x], G_events(h.Store)[y], peers)
+//@   ensures[err]  ret1 != nil ==> !ret0
+//@   loop 1 invariant[cnt] c == __count(__visset(), func(p string) bool { return SSCond(G_events(h.Store)[x], G_events(h.Store)[y], p) })
+
+// PSHexOf: the cache-key component that identifies the validator set.
+//@ ghost func PSHexOf(ps *peers.PeerSet) string { return common.Enc(peers.PSHashOf(ps.Peers)) }
+//@ ghost func (h *Hashgraph) ssCacheOK() bool { return h.stronglySeeCache != nil && (forall x string, y string, z string :: __in(interface{}(treKey{x, y, z}), common.G_m(h.stronglySeeCache)) ==> common.G_m(h.stronglySeeCache)[interface{}(treKey{x, y, z})] == interface{}(SSV(h, x, y, z))) }
+
+//@ func (h *Hashgraph) stronglySee(x, y string, peers *peers.PeerSet) (bool, error)
+//@   requires h != nil && peers != nil && peers.WF() && h.ssCacheOK()
+//@   assume[def] __in(x, G_events(h.Store)) && __in(y, G_events(h.Store)) ==> SSV(h, x, y, PSHexOf(peers)) == SSRule(G_events(h.Store)[x], G_events(h.Store)[y], peers)
+//@   modifies common.G_m(h.stronglySeeCache), G_miss(h.Store)
+//@   ensures[value] ret1 == nil ==> ret0 == SSV(h, x, y, PSHexOf(peers))
+//@   ensures[memo]  h.ssCacheOK()
+
+// Round rule: the larger parent round (other-parent taken only when strictly larger), plus one iff strictly more
+// than two thirds of the parent round's validators have a witness in that round which x strongly sees (counted over
+// the SET of the round's witnesses: no iteration order, no duplicates).
+//@ ghost func SPRound(h *Hashgraph, e *Event) int { return __ite(e.Body.Parents[0] == "", -1, RoundV(h, e.Body.Parents[0])) }
+//@ ghost func ParentRound(h *Hashgraph, e *Event) int { return __ite(e.Body.Parents[1] != "" && RoundV(h, e.Body.Parents[1]) > SPRound(h, e), RoundV(h, e.Body.Parents[1]), SPRound(h, e)) }
+//@ ghost func RoundInc(h *Hashgraph, x string, r *RoundInfo, ps *peers.PeerSet) bool { return 3*__count(r.CreatedEvents, func(w string) bool { return r.CreatedEvents[w].Witness && SSV(h, x, w, PSHexOf(ps)) }) > 2*len(ps.ByPubKey) }
+//@ ghost func RoundRule(h *Hashgraph, x string, e *Event) int { return __ite(ParentRound(h, e) == -1, 0, ParentRound(h, e) + __ite(RoundInc(h, x, G_rounds(h.Store)[ParentRound(h, e)], G_pset(h.Store)[ParentRound(h, e)]), 1, 0)) }
+//@ ghost func (h *Hashgraph) roundCacheOK() bool { return h.roundCache != nil && (forall x string :: __in(interface{}(x), common.G_m(h.roundCache)) ==> common.G_m(h.roundCache)[interface{}(x)] == interface{}(RoundV(h, x))) }
+
+//@ func (h *Hashgraph) _round(x string) (int, error)
+//@   requires h != nil && h.memoSep() && h.roundCacheOK() && h.ssCacheOK()
+//@   modifies common.G_m(h.roundCache), common.G_m(h.stronglySeeCache), G_miss(h.Store)
+//@   ensures[rule] ret1 == nil ==> __in(x, G_events(h.Store)) && ret0 == RoundRule(h, x, G_events(h.Store)[x])
+//@   ensures[memo] h.roundCacheOK() && h.ssCacheOK()
+//@   loop 1 modifies common.G_m(h.stronglySeeCache), G_miss(h.Store)
+//@   loop 1 invariant[memo] h.roundCacheOK() && h.ssCacheOK()
+//@   loop 1 invariant[enum] __enum(__ranged([]string(nil)), parentRoundObj.CreatedEvents, func(w string) bool { return parentRoundObj.CreatedEvents[w].Witness })
+//@   loop 1 invariant[cnt]  c == __countseq(__ranged([]string(nil)), __idx(), func(w string) bool { return SSV(h, x, w, PSHexOf(parentRoundPeerSet)) })
+//@   loop 1 invariant[set]  __enumlemma(__ranged([]string(nil)), parentRoundObj.CreatedEvents, func(w string) bool { return parentRoundObj.CreatedEvents[w].Witness }, func(w string) bool { return SSV(h, x, w, PSHexOf(parentRoundPeerSet)) }, func(w string) bool { return parentRoundObj.CreatedEvents[w].Witness && SSV(h, x, w, PSHexOf(parentRoundPeerSet)) })
 
 //@ func (h *Hashgraph) round(x string) (int, error)
-//@   trusted memoising wrapper around _round (covered under C03); here only its frame is used
+//@   requires h != nil && h.memoSep() && h.roundCacheOK() && h.ssCacheOK()
+//@   assume[def] __in(x, G_events(h.Store)) ==> RoundV(h, x) == RoundRule(h, x, G_events(h.Store)[x])
+//@   modifies common.G_m(h.roundCache), common.G_m(h.stronglySeeCache), G_miss(h.Store)
+//@   ensures[value] ret1 == nil ==> ret0 == RoundV(h, x)
+//@   ensures[memo]  h.roundCacheOK() && h.ssCacheOK()
+
+//@ func (h *Hashgraph) witness(x string) (bool, error)
+//@   trusted memoising wrapper around _witness (covered under C03); here only its frame is used
 //@   modifies anyghost common.m, G_miss(h.Store)
 
 //@ func (h *Hashgraph) lamportTimestamp(x string) (int, error)
